@@ -2,6 +2,7 @@ import DriverLib.Basic
 import DriverLib.C03
 import DriverLib.C05
 import QV.Model.CDStep
+import DriverLib.CallForm
 open Lean Drv QV QV.Grads QV.CDStep
 
 namespace Drv.C06
@@ -126,7 +127,9 @@ def parseSched (j : Json) : R (Nat → Float → Float) := do
 /-- op `c06.run`: a whole `fit` call from the INITIAL parameters: `fitTracePos/Cplx/DM` (fold of plain-SGD updates over the
 batches of every epoch, the learning rate of epoch `e` being the rate after `e` scheduler steps).
 in: kind, sizes, initial parameters, lr0, sched, epochs = [[batch]], batch = {rows | samples, vk}.
-out: `trace` = parameters after every batch (per network, flat), `lrs` = learning rate in force at every batch.
+out: `trace` = parameters after every batch (per network, flat), `lrs` = learning rate in force at every batch, `final_lr` = the
+rate left in the optimizer after the last entered epoch (`lrEnd`), `sched_steps` = number of scheduler steps (`schedSteps`).
+An epoch may be cut short (fewer batches than the others, even none): it still counts as an entered epoch.
 The fold is the model's `foldTrace` over the model's `tagEpochs` with the model's `updPos/updCplx/updDM`; the parameters are
 materialised into arrays after every update (`reify…`, extensionally the identity, so this IS `fitTracePos/Cplx/DM`). -/
 def runOp (j : Json) : R Json := do
@@ -145,7 +148,8 @@ def runOp (j : Json) : R Json := do
         return pb
     let tr := foldTrace (fun p b => reifyRBM (updPos p b)) am (tagEpochs next lr0 0 epochs)
     return Json.mkObj [("trace", .arr (tr.toArray.map fun p => .arr #[fListOut p.flatten])),
-      ("lrs", fListOut ((tagEpochs next lr0 0 epochs).map (·.1)))]
+      ("lrs", fListOut ((tagEpochs next lr0 0 epochs).map (·.1))),
+      ("final_lr", fOut (lrEnd next lr0 0 epochs)), ("sched_steps", nOut (schedSteps epochs))]
   else
     let dict ← Drv.C03.parseDict (← fld j "dict")
     let epochs ← epochsJ.toList.mapM fun ej => do
@@ -155,24 +159,26 @@ def runOp (j : Json) : R Json := do
         let sb : SmpBatch Float n := (D, vk)
         return sb
     let lrs := fListOut ((tagEpochs next lr0 0 epochs).map (·.1))
+    let fin : List (String × Json) := [("final_lr", fOut (lrEnd next lr0 0 epochs)), ("sched_steps", nOut (schedSteps epochs))]
     if kind == "cplx" then
       let am ← parseRBM (← fld j "am") n h
       let ph ← parseRBM (← fld j "ph") n h
       let tr := foldTrace (fun p b => let q := updCplx dict p b; (reifyRBM q.1, reifyRBM q.2)) (am, ph) (tagEpochs next lr0 0 epochs)
-      return Json.mkObj [("trace", .arr (tr.toArray.map fun p => .arr #[fListOut p.1.flatten, fListOut p.2.flatten])), ("lrs", lrs)]
+      return Json.mkObj ([("trace", .arr (tr.toArray.map fun p => .arr #[fListOut p.1.flatten, fListOut p.2.flatten])), ("lrs", lrs)] ++ fin)
     else
       let a ← jNat (← fld j "a")
       let am ← parsePRBM (← fld j "am") n h a
       let ph ← parsePRBM (← fld j "ph") n h a
       let eps ← jFloat (← fld j "eps")
       let tr := foldTrace (fun p b => let q := updDM dict eps p b; (reifyPRBM q.1, reifyPRBM q.2)) (am, ph) (tagEpochs next lr0 0 epochs)
-      return Json.mkObj [("trace", .arr (tr.toArray.map fun p => .arr #[fListOut p.1.flatten, fListOut p.2.flatten])), ("lrs", lrs)]
+      return Json.mkObj ([("trace", .arr (tr.toArray.map fun p => .arr #[fListOut p.1.flatten, fListOut p.2.flatten])), ("lrs", lrs)] ++ fin)
 
 def handle (op : String) (j : Json) : Option (R Json) :=
   match op with
   | "c06.step" => some (stepOp j)
   | "c06.cdstep" => some (cdStepOp j)
   | "c06.run" => some (runOp j)
+  | "c06.bind" => some (Drv.CallForm.bindOp j)
   | _ => none
 
 end Drv.C06
